@@ -51,7 +51,8 @@ func (ser *MultiEpoch) getGsfaReadersInEpochDescendingOrderForSlotRange(ctx cont
 	startEpoch := slottools.CalcEpochForSlot(startSlot)
 	endEpoch := slottools.CalcEpochForSlot(endSlot)
 
-	epochs := make([]*Epoch, 0, endEpoch-startEpoch+1)
+	// (the capacity must not be derived from the client-supplied slot range: it wraps for endSlot < startSlot)
+	epochs := make([]*Epoch, 0, len(ser.epochs))
 	for _, epoch := range ser.epochs {
 		if epoch.Epoch() >= startEpoch && epoch.Epoch() <= endEpoch {
 			epochs = append(epochs, epoch)
